@@ -17,21 +17,31 @@ Ltac case_bits :=
          end.
 
 (* every feature written by the lowering of f is supported, or is itself lowered
-   and strictly lower in rank: for EVERY unsupported set U without array spread *)
-Lemma lowering_closed_l (U : fset) f g :
-  base_ok U = true -> U f = true -> dispose U f = Lowered -> In g (emits U f) ->
-  U g = false \/ (dispose U g = Lowered /\ rank g < rank f).
+   and strictly lower in rank, or is the array spread of `super(...arguments)`:
+   for EVERY unsupported set U, no hypothesis *)
+Lemma lowering_closed_gen (U : fset) f g :
+  U f = true -> dispose U f = Lowered -> In g (emits U f) ->
+  U g = false \/ (dispose U g = Lowered /\ rank g < rank f) \/ (g = FArraySpread /\ f = FClassField).
 Proof.
-  unfold base_ok. intros Hb Hf Hd Hin.
-  destruct (U FArraySpread) eqn:Hsp; [discriminate|]. clear Hb.
+  intros Hf Hd Hin.
   destruct f; cbv [dispose] in Hd; try discriminate Hd;
     cbv [emits emits_syntax helpers_of flat_map helper_feats helper_fuel find_helper runtime_helpers
          String.eqb Ascii.eqb Bool.eqb fst snd helper_own select fold_left forallb negb app let_or_var] in Hin;
     try (exfalso; exact Hin);
     case_bits; try discriminate; cbn [app] in Hin; split_in Hin; subst;
-    try (right; split; reflexivity);
+    try (right; left; split; reflexivity);
+    try (right; right; split; reflexivity);
     try (destruct (U FAsyncAwait) eqn:?, (U FGenerator) eqn:?; try discriminate);
     first [ left; assumption
-          | right; split; [cbv [dispose]; case_bits; first [reflexivity | congruence] | vm_compute; reflexivity] ].
+          | right; left; split; [cbv [dispose]; case_bits; first [reflexivity | congruence] | vm_compute; reflexivity] ].
 Qed.
 
+(* with array spread supported the third case disappears *)
+Lemma lowering_closed_l (U : fset) f g :
+  base_ok U = true -> U f = true -> dispose U f = Lowered -> In g (emits U f) ->
+  U g = false \/ (dispose U g = Lowered /\ rank g < rank f).
+Proof.
+  unfold base_ok. intros Hb Hf Hd Hin.
+  destruct (lowering_closed_gen U f g Hf Hd Hin) as [H|[H|[-> _]]]; [left; exact H | right; exact H |].
+  left. destruct (U FArraySpread); [discriminate | reflexivity].
+Qed.
